@@ -475,7 +475,7 @@ def _exec_history(sc, chooser, violation, probes):
             job.stop_ev = None
             buf_start = len(sys.stdout.getvalue())
             agent = jc.add_job(job, 'j{}'.format(j))
-            th = agent._thread._st
+            th = world.thread_of_agent(sim, agent)
             if kind == 'run_stop':
                 delay, force = step[2], step[3]
 
